@@ -112,3 +112,88 @@ func TestEngineFieldDatetime(t *testing.T) {
 		propFieldTime.Exec(rt, c)
 	})
 }
+
+// A field that already holds some text is set to the same text again after the contact's timezone changed: the text now
+// denotes another instant (the wall clock it spells, in the new zone), and that is what the field must hold. A value
+// is the meaning of its text under the settings in force, not a cache keyed by the text.
+
+type ReparseCase struct {
+	Wall       string `json:"wall"` // 2006-01-02 15:04 wall-clock time the text spells
+	EnvZone    string `json:"env_zone"`
+	ZoneBefore string `json:"zone_before"` // contact timezone when the field is first set ("" = none)
+	ZoneAfter  string `json:"zone_after"`  // contact timezone set before the field is set again
+	DateFormat string `json:"date_format"`
+}
+
+func runReparse(c ReparseCase) *harn.Failure {
+	wall, err := time.Parse("2006-01-02 15:04", c.Wall)
+	if err != nil {
+		return harn.Failf("harness", "bad wall time %q", c.Wall)
+	}
+	layout := map[string]string{"YYYY-MM-DD": "2006-01-02 15:04", "DD-MM-YYYY": "02-01-2006 15:04", "MM-DD-YYYY": "01-02-2006 15:04"}[c.DateFormat]
+	text := wall.Format(layout)
+	node := M{"uuid": world.UUID("node", 1), "actions": []M{
+		{"uuid": world.UUID("action", 1), "type": "set_contact_field", "field": M{"key": "joined", "name": "Joined"}, "value": text},
+		{"uuid": world.UUID("action", 2), "type": "set_contact_timezone", "timezone": c.ZoneAfter},
+		{"uuid": world.UUID("action", 3), "type": "set_contact_field", "field": M{"key": "joined", "name": "Joined"}, "value": text},
+		{"uuid": world.UUID("action", 4), "type": "send_msg", "text": "joined @fields.joined"},
+	}, "exits": []M{{"uuid": world.UUID("exit", 1)}}}
+	flow := M{"uuid": world.UUID("flow", 1), "name": "Reparse", "spec_version": "13.6.0", "language": "eng", "type": "messaging", "revision": 1, "expire_after_minutes": 0, "localization": M{}, "nodes": []M{node}}
+	as, _ := json.Marshal(M{"flows": []M{flow}, "channels": world.Channels(), "fields": world.FieldDefs})
+	contact := M{"uuid": world.UUID("contact", 1), "id": 1, "status": "active", "created_on": "2015-01-01T10:00:00Z", "name": "Bob", "urns": []string{"tel:+250788123456"}}
+	if c.ZoneBefore != "" {
+		contact["timezone"] = c.ZoneBefore
+	}
+	env := M{"date_format": c.DateFormat, "time_format": "tt:mm", "timezone": c.EnvZone, "allowed_languages": []string{"eng"}}
+	tr, _ := json.Marshal(M{"type": "manual", "flow": M{"uuid": world.UUID("flow", 1), "name": "Reparse"}, "contact": contact, "environment": env, "triggered_on": "2024-03-10T09:00:00Z"})
+	var r *scen.Runner
+	var sp *scen.Sprint
+	var serr error
+	if p := guard.Call(30*time.Second, func() { r, sp, serr = scen.Start(&scen.Case{Assets: as, Trigger: tr, Seed: 1}) }); p != nil {
+		return harn.PanicFailure("no-panic", "starting", p)
+	}
+	if serr != nil || sp.Err != nil {
+		return harn.Failf("harness-setup", "scenario does not run: %v / %v", serr, sp.Err)
+	}
+	loc, lerr := time.LoadLocation(c.ZoneAfter)
+	if lerr != nil {
+		return harn.Failf("harness", "bad zone %q", c.ZoneAfter)
+	}
+	want := time.Date(wall.Year(), wall.Month(), wall.Day(), wall.Hour(), wall.Minute(), 0, 0, loc)
+	b, _ := json.Marshal(r.Session.Contact())
+	var cm struct {
+		Fields map[string]struct {
+			Text     string `json:"text"`
+			Datetime string `json:"datetime"`
+		} `json:"fields"`
+	}
+	_ = json.Unmarshal(b, &cm)
+	got, perr := time.Parse(time.RFC3339Nano, cm.Fields["joined"].Datetime)
+	if perr != nil {
+		return harn.Failf("field-datetime-parses", "%+v: field holds %+v", c, cm.Fields["joined"])
+	}
+	if !got.Equal(want) {
+		return harn.Failf("field-follows-settings", "text %q set again after the contact's timezone became %s: the field holds %s, the text now denotes %s (first set under contact zone %q, environment %s)",
+			text, c.ZoneAfter, got.UTC().Format(time.RFC3339), want.UTC().Format(time.RFC3339), c.ZoneBefore, c.EnvZone)
+	}
+	stats.Nontrivial(stats.Hash64(fmt.Sprint(c)))
+	return nil
+}
+
+var propReparse = harn.Register(&harn.Prop[ReparseCase]{Name: "TestEngineFieldReparse", Run: runReparse})
+
+func TestEngineFieldReparse(t *testing.T) {
+	zones := []string{"UTC", "Africa/Kigali", "America/Los_Angeles", "Asia/Kolkata", "Asia/Tokyo", "America/Bogota", "Europe/London"}
+	rapid.Check(t, func(rt *rapid.T) {
+		// wall-clock times in January/July of 2000-2030, days 5-25, 03:00-21:59: never inside a DST transition of the zones above
+		wall := time.Date(rapid.IntRange(2000, 2030).Draw(rt, "y"), time.Month(rapid.SampledFrom([]int{1, 7}).Draw(rt, "m")), rapid.IntRange(5, 25).Draw(rt, "d"), rapid.IntRange(3, 21).Draw(rt, "h"), rapid.IntRange(0, 59).Draw(rt, "mi"), 0, 0, time.UTC)
+		c := ReparseCase{Wall: wall.Format("2006-01-02 15:04"), EnvZone: rapid.SampledFrom(zones).Draw(rt, "envzone"), ZoneBefore: rapid.SampledFrom(append([]string{""}, zones...)).Draw(rt, "before"),
+			ZoneAfter: rapid.SampledFrom(zones).Draw(rt, "after"), DateFormat: rapid.SampledFrom([]string{"YYYY-MM-DD", "DD-MM-YYYY", "MM-DD-YYYY"}).Draw(rt, "df")}
+		if stats.WantSample() {
+			stats.Sample(c)
+		} else {
+			stats.SkipSample()
+		}
+		propReparse.Exec(rt, c)
+	})
+}
